@@ -30,6 +30,7 @@ Plan gen_c24(sk::Rng& r, Tier) {
         else if (c < 58) { op.k = "reply"; op.a = {static_cast<std::int64_t>(r.below(2)), static_cast<std::int64_t>(r.below(3))}; }
         else if (c < 68) { op.k = "drop_session"; op.a = {static_cast<std::int64_t>(r.below(2))}; }
         else if (c < 76) { op.k = "reconnect"; op.a = {static_cast<std::int64_t>(r.below(2))}; }
+        else if (c < 81) { op.k = "store_local"; op.a = {static_cast<std::int64_t>(r.below(3))}; }
         else { op.k = "wait"; op.a = {r.pick<std::int64_t>({300, 1100, 2100, 3500, 6000, 16000, 30000})}; }
         p.ops.push_back(op);
     }
@@ -73,13 +74,22 @@ void exec_c24(const Plan& p, Ctx& ctx) {
     std::vector<std::map<int, int>> requests_seen(static_cast<std::size_t>(nprov));  // provider -> chunk -> REQUEST frames received
     std::vector<bool> session_up(static_cast<std::size_t>(nprov), true);
 
+    std::int64_t stored_locally_at[3] = {-1, -1, -1};
+    std::map<std::string, std::int64_t> held_since;  // chunk key -> when the node was first seen holding it (a fetch is dropped by the next scan, i.e. tick)
     auto absorb = [&](int q) {
         rig.drain(q);
         RigPeer& peer = *rig.peers[static_cast<std::size_t>(q)];
         for (; consumed[static_cast<std::size_t>(q)] < peer.received.size(); ++consumed[static_cast<std::size_t>(q)]) {
             const auto& m = peer.received[consumed[static_cast<std::size_t>(q)]];
             if (auto* rq = std::get_if<pr::RequestPayload>(&m.payload)) {
-                for (int k = 0; k < 3; ++k) if (rq->chunk_id == chunk_id(k)) { ++requests_seen[static_cast<std::size_t>(q)][k]; ctx.probe("request_frames_seen"); }
+                for (int k = 0; k < 3; ++k) if (rq->chunk_id == chunk_id(k)) {
+                    ++requests_seen[static_cast<std::size_t>(q)][k]; ctx.probe("request_frames_seen");
+                    // the node stored this chunk itself a while ago (two ticks and more): it has no reason left to ask anybody for it
+                    const std::size_t idx = consumed[static_cast<std::size_t>(q)];
+                    const std::int64_t at = idx < peer.received_at.size() ? peer.received_at[idx] : sk::now_ns();
+                    if (stored_locally_at[k] >= 0 && at > stored_locally_at[k] + 2 * p.knob("tick_ms", 1000) * kMs + kSec + p.knob("lat_max_us", 1000) * 2000)
+                        ctx.violate("C24.request_for_held_chunk", fmt("a REQUEST for chunk %d reached a provider %.3f s after the node had stored that chunk itself", k, (at - stored_locally_at[k]) / 1e9));
+                }
             }
         }
     };
@@ -151,7 +161,8 @@ void exec_c24(const Plan& p, Ctx& ctx) {
                 ctx.violate("C24.attempt_limit_exceeded", fmt("a pending fetch has made %zu attempts; the attempt limit is %lld (%s)", f.attempts, (long long)limit, when));
             }
             if (limit > 0 && f.attempts == static_cast<std::size_t>(limit)) ctx.boundary("fetch_at_attempt_limit");
-            if (held.count(key) && now - f.last_dispatch > 2 * tick_ns + kSec && when[0] == 'q')
+            if (held.count(key) && !held_since.count(key)) held_since[key] = now;
+            if (held.count(key) && now - std::max(f.last_dispatch, held_since[key]) > 2 * tick_ns + kSec && when[0] == 'q')
                 ctx.violate("C24.pending_after_chunk_held", fmt("fetch still pending although the chunk is held locally (%s)", when));
             if (f.manifest_expires + 2 * tick_ns + kSec < now && when[0] == 'q')
                 ctx.violate("C24.pending_after_manifest_expiry", fmt("fetch still pending %.3f s after its manifest expired (%s)", (now - f.manifest_expires) / 1e9, when));
@@ -165,6 +176,17 @@ void exec_c24(const Plan& p, Ctx& ctx) {
             sk::sleep_ns(op.at(0) * kMs);
             for (int q = 0; q < nprov; ++q) absorb(q);
             check("quiescent after wait");
+            continue;
+        }
+        if (op.k == "store_local") {
+            // the node's own user stores the very chunk the node is (or may be) fetching: the fetch has become pointless
+            const int k = static_cast<int>(op.at(0)) % 3;
+            for (int qq = 0; qq < nprov; ++qq) absorb(qq);
+            rig.node.run([&](en::Node& n) { n.store_chunk(chunk_id(k), make_payload(150 + static_cast<std::size_t>(k) * 37, 900 + static_cast<std::uint64_t>(k)), seconds(p.knob("chunk_ttl", 60) + k * 7)); });
+            if (stored_locally_at[k] < 0) stored_locally_at[k] = sk::now_ns();
+            if (!held_since.count(en::chunk_id_to_string(chunk_id(k)))) held_since[en::chunk_id_to_string(chunk_id(k))] = sk::now_ns();
+            ctx.boundary("chunk_stored_locally_while_fetches_may_be_pending");
+            check("after local store");
             continue;
         }
         const int q = static_cast<int>(op.at(0)) % nprov;
